@@ -723,6 +723,13 @@ impl<W: Write + io::Seek> ZipWriter<W> {
     where
         S: Into<String>,
     {
+        // The copy's headers cannot carry the encryption parameters of the source: it would be
+        // recorded as a plain entry whose data is the ciphertext.
+        if file.encrypted() {
+            return Err(ZipError::UnsupportedArchive(
+                "Raw copy of an encrypted entry is not supported",
+            ));
+        }
         let mut options = FileOptions::default()
             .large_file(file.compressed_size().max(file.size()) > spec::ZIP64_BYTES_THR)
             .last_modified_time(file.last_modified())
